@@ -104,6 +104,7 @@ def cases(ctx):
     for _ in range(ctx.n(20, 500)):
         pub = priv_with_parity(rng, rng.random() < 0.5).get_public_key()
         yield Case(f'tr_addr {hx(pub.to_bytes())} N', 'gms', nontrivial=not pub.is_y_even(), tag='keyonly')
+        yield Case(f'tr_addr_obj {hx(pub.to_bytes())} N', 'g', nontrivial=True, tag='gen-address-object')
         root = G.rbytes(rng, 32)
         yield Case(f'tr_addr {hx(pub.to_bytes())} R {hx(root)}', 'gms', nontrivial=True, tag='rawroot')
     # the two hash leaves against the *generated* code (tier T): TapBranch on ordered / reversed / equal / prefix-related children,
@@ -142,6 +143,10 @@ def impl(op, a, ctx):
     if op == 'tr_root':
         t = TT.parse(F); F.done()
         return 'ok ' + hx(get_tag_hashed_merkle_root(TT.to_py(t)))
+    if op == 'tr_addr_obj':
+        pub = PublicKey('04' + F.bytes().hex()); s = TT.parse_scripts(F); F.done()
+        addr = pub.get_taproot_address(TT.scripts_py(s))
+        return f'ok {addr.segwit_num_version} {addr.to_witness_program()} {1 if addr.is_odd() else 0}'
     if op == 'tr_addr':
         pub = PublicKey('04' + F.bytes().hex()); s = TT.parse_scripts(F); F.done()
         prog, odd = pub.to_taproot_hex(TT.scripts_py(s))
